@@ -34,6 +34,7 @@ func C07(r *h.Run) {
 	c07GzipTruncated(r, rng.Fork("gzip-truncated"))
 	c07NilCompression(r)
 	c07ReceiveAfterFailure(r)
+	c07RepeatedHeaders(r)
 	c07InvalidUTF8JSON(r)
 	for i := 0; i < r.N(700, 9000); i++ {
 		proto := protos[rng.Intn(3)]
@@ -673,6 +674,67 @@ func c07InvalidUTF8JSON(r *h.Run) {
 				if code != "invalid_argument" || !wellFormed {
 					r.Fail(h.Failure{Key: "serve/undecodable-not-invalid-argument", Family: "json_invalid_utf8", What: "a JSON payload that is not valid UTF-8 did not reach the peer as invalid_argument in a well-formed response", Input: in,
 						Actual: fmt.Sprintf("HTTP %d, peer code %q, body %q", rec.Code, code, rec.Body.String())})
+				}
+			}
+		}
+	}
+}
+
+// c07RepeatedHeaders: a request may carry a header field more than once (a proxy appending its
+// own, a client library that adds rather than sets). The handler decides on the first value —
+// and the response it writes is well-formed: one Content-Type.
+func c07RepeatedHeaders(r *h.Run) {
+	for _, proto := range []string{"connect", "grpc", "grpcweb"} {
+		for _, kind := range []string{"unary", "server", "client"} {
+			for _, second := range []string{"text/plain", "application/octet-stream", "application/json; charset=utf-8"} {
+				for _, outcome := range []string{"ok", "error", "unknown-encoding"} {
+					cfg := envCfg{Proto: proto}
+					body := h.Frame(0, []byte("q"))
+					if proto == "connect" && kind == "unary" {
+						body = []byte("q")
+					}
+					req := httptest.NewRequest("POST", "/verif.Svc/M", bytes.NewReader(body))
+					req.ProtoMajor, req.ProtoMinor = 2, 0
+					ct := cfg.contentType(kind == "unary")
+					req.Header["Content-Type"] = []string{ct, second}
+					if outcome == "unknown-encoding" {
+						req.Header.Set(cfg.encodingHeader(kind == "unary" && proto == "connect"), "zstd")
+					}
+					var herr error
+					if outcome == "error" {
+						herr = connect.NewError(connect.CodeAborted, errors.New("no"))
+					}
+					var handler *connect.Handler
+					switch kind {
+					case "unary":
+						handler = connect.NewUnaryHandler("/verif.Svc/M", func(context.Context, *connect.Request[h.Raw]) (*connect.Response[h.Raw], error) {
+							return connect.NewResponse(&h.Raw{B: []byte("a")}), herr
+						}, connect.WithCodec(h.ToyCodec{}))
+					case "server":
+						handler = connect.NewServerStreamHandler("/verif.Svc/M", func(_ context.Context, _ *connect.Request[h.Raw], s *connect.ServerStream[h.Raw]) error {
+							_ = s.Send(&h.Raw{B: []byte("a")})
+							return herr
+						}, connect.WithCodec(h.ToyCodec{}))
+					default:
+						handler = connect.NewClientStreamHandler("/verif.Svc/M", func(_ context.Context, s *connect.ClientStream[h.Raw]) (*connect.Response[h.Raw], error) {
+							for s.Receive() {
+							}
+							return connect.NewResponse(&h.Raw{B: []byte("a")}), herr
+						}, connect.WithCodec(h.ToyCodec{}))
+					}
+					rec := httptest.NewRecorder()
+					p := safely(func() { handler.ServeHTTP(rec, req) })
+					in := map[string]any{"proto": proto, "kind": kind, "request Content-Type values": []string{ct, second}, "handler": outcome}
+					r.Eval("repeated_headers", fmt.Sprint(proto, kind, second, outcome))
+					if p != nil {
+						r.Fail(h.Failure{Key: "handler/panic", Family: "repeated_headers", What: fmt.Sprint("panic: ", p), Input: in})
+						continue
+					}
+					got := rec.Header().Values("Content-Type")
+					r.Sample("repeated_headers", map[string]any{"in": in, "status": rec.Code, "response Content-Type values": got})
+					if len(got) != 1 {
+						r.Fail(h.Failure{Key: "handler/response-content-type-values", Family: "repeated_headers", What: "the response carries Content-Type " + fmt.Sprint(len(got)) + " times: not a well-formed response of the protocol", Input: in, Actual: got})
+					}
 				}
 			}
 		}
